@@ -291,7 +291,7 @@ func call(car string, v reflect.Value, rules string) func() error {
 	case "struct-tag-after-other-tag", "struct-tag-after-call-local-functions", "struct-tag-field-70", "struct-rm-after-plain-call", "map-25-entries", "url-parameter-151-of-200",
 		string(carrier.StructWrappers), string(carrier.VarWrappers), string(carrier.MapWrappers), string(carrier.UrlWrappers),
 		string(carrier.StructFirstLocalFn), string(carrier.StructFirstOverride), string(carrier.StructFirstOtherTag), string(carrier.StructFirstNested),
-		string(carrier.MapRMEdited), string(carrier.UrlRMEdited), string(carrier.StructRMEdited), string(carrier.MapLocalFn), string(carrier.UrlLocalFn), string(carrier.VarLocalFn), string(carrier.StructAfterAbandoned):
+		string(carrier.MapRMEdited), string(carrier.UrlRMEdited), string(carrier.StructRMEdited), string(carrier.MapLocalFn), string(carrier.UrlLocalFn), string(carrier.VarLocalFn), string(carrier.StructAfterAbandoned), string(carrier.VarAfterRefused):
 		return func() error {
 			s, isNil := carrier.Validate(carrier.Kind(car), v, rules)
 			if isNil {
@@ -448,7 +448,7 @@ func run(c *runner.Ctx) {
 						string(carrier.StructFirstLocalFn), string(carrier.StructFirstOverride), string(carrier.StructFirstOtherTag), string(carrier.StructFirstNested), string(carrier.StructAfterAbandoned))
 				}
 				if tv.varOK {
-					cars = append(cars, "var", string(carrier.VarWrappers), string(carrier.VarLocalFn))
+					cars = append(cars, "var", string(carrier.VarWrappers), string(carrier.VarLocalFn), string(carrier.VarAfterRefused))
 				}
 				if tv.v.Kind() == reflect.String && tv.v.Type() == reflect.TypeOf("") {
 					cars = append(cars, "url-parameter-151-of-200", string(carrier.UrlWrappers), string(carrier.UrlRMEdited), string(carrier.UrlLocalFn))
